@@ -24,11 +24,14 @@ def check(ctx):
     ctx.rule("C14.D3", "read/write calls created by the transformation take the function from the store's class and the store as a literal argument; nothing closes over the registry")
     ctx.rule("C14.D5", "planning keeps its verdicts per run: nothing reachable from run stores into the registry or its entries (two concurrent runs / a dry run and a real run cannot exchange staleness verdicts)")
     ctx.rule("C14.D4", "the pair returned on the dry-run arm and the pair handed to execution are the same reaching definitions")
-    ctx.assume("equality of event logs of 'dry run then execute' and 'real run' follows from D4 plus determinism and is not observed")
+    ctx.rule("C14.D6", "what the real run executes of that pair is order-equivalent to the returned plan: the run preparation, evaluated as a whole on abstract plans, hands the engine a graph with every call and exactly the dependency paths of the plan it received")
+    ctx.assume("equality of event logs of 'dry run then execute' and 'real run' follows from D4, D6 plus determinism and is not observed")
     er = E.discover(m)
     rr = R.discover(m, er)
     ur = make_user_reaching(m)
     run = rr.run
+    from .prunerules import rule_execution_graph
+    ctx.run(rule_execution_graph, "C14.D6", rr)
     g = CFG(run, may_raise=any_call_may_raise)
     execs = R.calls_to(m, run, rr.run_physical)
     # ---------------------------------------------------------------- D1
